@@ -613,7 +613,10 @@ func (s *CreateDatabaseStatement) String() string {
 			_, _ = buf.WriteString(" REPLICATION ")
 			_, _ = buf.WriteString(strconv.Itoa(*s.RetentionPolicyReplication))
 		}
-		if s.RetentionPolicyShardGroupDuration > 0 {
+		// A zero shard duration is only printed when it is the sole option, so that
+		// WITH is never left without one.
+		if s.RetentionPolicyShardGroupDuration > 0 || (s.RetentionPolicyDuration == nil && s.RetentionPolicyReplication == nil &&
+			s.FutureWriteLimit == nil && s.PastWriteLimit == nil && s.RetentionPolicyName == "") {
 			_, _ = buf.WriteString(" SHARD DURATION ")
 			_, _ = buf.WriteString(FormatDuration(s.RetentionPolicyShardGroupDuration))
 		}
